@@ -67,12 +67,19 @@ def project(case):
             lines += [f"def test_{c}_{i}():", "    " + BODY[c][0], ""]
         if case["xfail"]:
             lines += ["@pytest.mark.xfail", f"def test_{c}_x():", "    " + BODY[c][0], ""]
+    if case["xfail"]:
+        # xfail given through the class (inherited marker)
+        lines += ["@pytest.mark.xfail", "class TestMarked:", "    def test_cls_x(self):", "        assert 5 == snapshot()", ""]
     lines += ["def test_holds():", "    assert 7 == snapshot(7)", "    assert 1 <= snapshot(1)", ""]
     lines += ["def test_probe():", "    import os", "    v = snapshot(3)",
               "    open(f'probe_{os.getpid()}.txt', 'w').write(type(v).__name__)", ""]
     lines += ["@pytest.mark.xfail", "def test_probe_x():", "    import os", "    v = snapshot(3)",
               "    open(f'probex_{os.getpid()}.txt', 'w').write(type(v).__name__)", "    assert False", ""]
     return "\n".join(lines)
+
+
+MODULE_XFAIL = ("from inline_snapshot import snapshot\nimport pytest\n\npytestmark = pytest.mark.xfail\n\n\n"
+                "def test_mod_x():\n    assert 5 == snapshot()\n\n\ndef test_mod_fix_x():\n    assert 5 == snapshot(4)\n")
 
 
 def pyproject(case):
@@ -174,12 +181,15 @@ def run_impl(case):
         env["FORCE_COLOR"] = "true"
     if case["env"] is not None:
         env["INLINE_SNAPSHOT_DEFAULT_FLAGS"] = ",".join(case["env"])
-    r = impl_pytest.run_session({"test_a.py": src}, args, env, stdin_for(case), pyproject(case))
+    files = {"test_a.py": src}
+    if case["xfail"]:
+        files["test_zz_module_xfail.py"] = MODULE_XFAIL
+    r = impl_pytest.run_session(files, args, env, stdin_for(case), pyproject(case))
     after = r["files"].get("test_a.py", b"").decode()
     obs = {"rc": r["rc"], "outcomes": r["outcomes"], "changed": after != src, "after": after,
            "usage_error": r["rc"] == 4 and after == src, "traceback": "Traceback" in r["stderr"],
            "stderr": r["stderr"][-1500:], "stdout_tail": r["stdout"][-1500:],
-           "other_files": sorted(k for k in r["files"] if k not in ("test_a.py", "pyproject.toml") and not k.startswith("probe")),
+           "other_files": sorted(k for k in r["files"] if k not in ("test_a.py", "pyproject.toml", "test_zz_module_xfail.py") and not k.startswith("probe")),
            "probe": sorted({v.decode() for k, v in r["files"].items() if k.startswith("probe_")}),
            "probex": sorted({v.decode() for k, v in r["files"].items() if k.startswith("probex_")})}
     try:
@@ -192,6 +202,10 @@ def run_impl(case):
             body = after.split(f"def test_{c}_x():")[1].split("def test_")[0]
             if BODY[c][0] not in body:
                 xf_changed = True
+        if "class TestMarked" in after and "def test_cls_x(self):\n        assert 5 == snapshot()" not in after:
+            xf_changed = True
+        if r["files"].get("test_zz_module_xfail.py", b"").decode() != MODULE_XFAIL:
+            xf_changed = True
     obs["xfail_changed"] = xf_changed
     plain = plain_cli(case)
     if plain is not None:
